@@ -21,6 +21,9 @@ pub struct Shared {
     pub shutdown: bool,
     pub dropped: bool,
     pub reads: usize,
+    /// writes return Pending while set (a peer that does not drain its socket)
+    pub stall_writes: bool,
+    wwaker: Option<Waker>,
     waker: Option<Waker>,
 }
 
@@ -61,6 +64,15 @@ impl Net {
         s.read_err = true;
         if let Some(w) = s.waker.take() {
             w.wake();
+        }
+    }
+    pub fn stall_writes(&self, on: bool) {
+        let mut s = self.0.lock().unwrap();
+        s.stall_writes = on;
+        if !on {
+            if let Some(w) = s.wwaker.take() {
+                w.wake();
+            }
         }
     }
     pub fn set_max_read(&self, n: usize) {
@@ -113,8 +125,12 @@ impl AsyncRead for SimIo {
 }
 
 impl AsyncWrite for SimIo {
-    fn poll_write(self: Pin<&mut Self>, _cx: &mut Context<'_>, buf: &[u8]) -> Poll<io::Result<usize>> {
+    fn poll_write(self: Pin<&mut Self>, cx: &mut Context<'_>, buf: &[u8]) -> Poll<io::Result<usize>> {
         let mut s = self.0.lock().unwrap();
+        if s.stall_writes {
+            s.wwaker = Some(cx.waker().clone());
+            return Poll::Pending;
+        }
         if s.shutdown {
             return Poll::Ready(Err(io::Error::new(io::ErrorKind::BrokenPipe, "sim write after shutdown")));
         }
